@@ -328,7 +328,8 @@ impl Sim {
             Chooser::Tape { tape, pos } => {
                 let p = if *pos < tape.len() {
                     let t = tape[*pos] as usize;
-                    if elig.contains(&t) {
+                    // 255 = "default choice here" (left by schedule minimisation)
+                    if t != 255 && elig.contains(&t) {
                         t
                     } else {
                         default
